@@ -377,6 +377,11 @@ def _static_frames(tier="quick", seed=0):
                 rec["model"] = {"accessor": "%s.%s" % (cname, name), "inferred": NAMES[eff], "chain": why}
                 rr = _replay_accessor(cname, name, tier, chain=why)
                 rec["replay"] = rr
+                if not rr.get("confirmed") and cname.startswith("_") and " on 0 objects" in rr.get("detail", ""):
+                    # an internal helper class (underscore name) that no public traversal reaches: its members are not read
+                    # accessors of the object model; the public accessors delegating to it carry the obligation
+                    notes.append("%s.%s: internal class never reached through the public API, no obligation of its own (%s)" % (cname, name, why))
+                    continue
             obls.append(rec)
     notes.append("inferred effects: %d pure, %d adds-empty-container, %d mutates, %d unresolved (unresolved accessors are covered by C12.native_traversal only)"
                  % (counts[PURE], counts[EMPTY], counts[MUT], counts[UNK]))
